@@ -505,7 +505,13 @@ func Families(tier string) []Family {
 			if variant >= 3 {
 				c.Opts = append(c.Opts, opt("bool", "é", 1), opt("string", "-", 2))
 			}
-			c = WithHelp(c, "help", "?")
+			hname := []string{"help", "ayuda"}[variant%2]
+			if variant%2 == 1 {
+				c.Self = true
+				c.Prog = T("tool")
+			}
+			c = WithHelp(c, hname, "?")
+			toks = Ts("--"+hname, hname, "c1", "sub")
 			f.Defs = append(f.Defs, Def{Cfg: c, Tokens: toks, L: lim(tier, 2, 3), Disp: true, HelpF: true})
 		}
 		fams = append(fams, f)
